@@ -68,6 +68,26 @@ def _table_case(cols, by, reverse, na_last, bare=False):
             "reverse": reverse, "na_last": na_last}
 
 
+def resort_cases(rng, n):
+    """tables whose rows already stand in the stable order of an earlier sort by the same keys in the OPPOSITE directions (ties
+    keep their id order), sorted again: see observe (case["via_sort"])"""
+    cs = []
+    for _ in range(n):
+        m = rng.randint(2, 7)
+        nk = rng.choice([1, 1, 2])
+        rows = [[rng.randrange(3) for _ in range(nk)] + [i] for i in range(m)]
+        first = [rng.random() < 0.5 for _ in range(nk)]
+        for q in reversed(range(nk)):                        # the stable multi-key order under directions `first`
+            rows.sort(key=lambda r: r[q], reverse=first[q])
+        cols = [[["i", r[c]] for r in rows] for c in range(nk + 1)]
+        rev = [not x for x in first]
+        c = _table_case(cols, [["n", q] for q in range(nk)], rev if nk > 1 or rng.random() < 0.5 else rev[0], rng.random() < 0.5,
+                        bare=(nk == 1 and rng.random() < 0.5))
+        c["via_sort"] = first if nk > 1 else first[0]
+        cs.append(c)
+    return cs
+
+
 def streams(rng, tier):
     out = []
     alpha = [N, ["i", 0], ["i", 1]]
@@ -118,6 +138,7 @@ def streams(rng, tier):
     rnd = [random_case(rng) for _ in range(1500 if tier == "quick" else 20000)]
     out.append(("random", rnd))
     out.append(("shape", shape_cases(rng, 40 if tier == "quick" else 300)))
+    out.append(("resort", resort_cases(rng, 150 if tier == "quick" else 1500)))
     # the same cases on operands with a past (values.lived_in / lived_in_table): sorted before in another state,
     # then rewritten in place - a sort is a function of the CURRENT contents
     lived = []
@@ -276,6 +297,17 @@ def observe(case):
                 c.name = names[j]
         else:
             t = Table({nm: [V.dec(x) for x in col] for nm, col in zip(names, case["cols"])})
+        if case.get("via_sort") is not None:
+            # the table being sorted IS the result of an earlier sort_by by the same keys in the opposite directions (its rows are
+            # already in that order, so that sort was the identity on the cells): whatever such a result remembers about how it
+            # came to be, sorting it again is an ordinary stable sort of its rows
+            try:
+                keys0 = [names[s_[1]] for s_ in case["by"]]
+                s0 = t.sort_by(keys0 if len(keys0) > 1 else keys0[0], reverse=case["via_sort"], na_last=case["na_last"])
+                if _enc_cols(s0) == _enc_cols(t):
+                    t = s0
+            except Exception:                                # noqa: BLE001
+                pass
         pre = _enc_cols(t)
         vecs, by = [], []
         for spec in case["by"]:
